@@ -59,6 +59,8 @@ def job(spec):
         data = (np.arange(n * c, dtype=np.int64) % top).reshape(n, c)
     else:
         data = rng.integers(0, top, size=(n, c), dtype=np.int64)
+    if nbits == 32:
+        data = data - top // 2          # float samples are signed: sums, means and extrema of either sign
     band = dict(BAND, fch1=float(max(8, c + 4)))     # every channel frequency >= 5 MHz
     names = fixtures.write_set(d, f"c06_{spec['id']}", data, nbits, spec["split"], **band)
     files = [list(open(f, "rb").read()[-(k * c * nbits // 8):]) if k else [] for f, k in zip(names, spec["split"])]
@@ -146,7 +148,8 @@ def run(v) -> None:
         out = []
         for (start, nsamps) in ranges:
             for gulp in gulps:
-                for op in ops:
+                # both orders of the two statistics passes over the SAME range on the same reader (basic then full, full then basic)
+                for op in (ops if gulp % 2 else [o for o in ops if o not in ("stats", "stats_basic")] + ["stats_basic", "stats"]):
                     if op == "dedisp" and c == 1:
                         continue   # one channel: no dispersion across channels (get_dmdelays returns a 0-d array)
                     if op == "dedisp":
